@@ -229,6 +229,7 @@ def function(func=None, *, version=0):
             log_ = log.RecordLog()
             with disable(), log.add(log_):
                 value = func(*args, **kwargs)
+            f.truncate()
             pickle.dump((value, log_), f)
             log.debug('[cache.function {}] store'.format(hkey))
             return value
@@ -388,6 +389,7 @@ class Recursion(types.Immutable, metaclass=_RecursionMeta):
                                 stop = True
                                 value = None
                         log.debug('[cache.Recursion {}.{}] store'.format(hkey, i))
+                        f.truncate()
                         pickle.dump((log_, stop, value), f)
                 if stop:
                     return
